@@ -226,12 +226,17 @@ def commentTail (snippet subslice : List Char) (offset : Nat) (st : Status) (v :
       | none => done (v.push .blank ['\n'])
   else done v
 
+/-- `last_char.map_or(true, |rev_c| ['{', '\n'].contains(&rev_c))` -/
+def fixIndentOf (lastChar : Option Char) : Bool :=
+  match lastChar with
+  | none => true
+  | some c => c == '{' || c == '\n'
+
 /-- The head of `process_comment` (`:237-264`): what is pushed in front of the comment, the
 `comment_indent` and `on_same_line`.  `bigPrefix` is `&big_snippet[..(offset + big_diff)]`. -/
 def commentHead (env : Env) (snippet bigPrefix : List Char) (v : Vis) : Option (Vis × Indent × Bool) :=
   let lastChar := bigPrefix.reverse.find? (fun c => !isSpaceTab c)
-  let fixIndent := match lastChar with | none => true | some c => c == '{' || c == '\n'
-  if fixIndent then
+  if fixIndentOf lastChar then
     let v1 := if lastChar = some '{' then v.push .blank ['\n'] else v
     match indentStr? env v1.blockIndent with
     | none => none
